@@ -24,6 +24,8 @@ pub struct PanicInfo {
 
 thread_local! {
     static LAST_PANIC: RefCell<Option<PanicInfo>> = const { RefCell::new(None) };
+    /// nesting depth of `catch` on this thread: a panic outside of it is a defect of the harness itself and is printed
+    static CATCH_DEPTH: std::cell::Cell<u32> = const { std::cell::Cell::new(0) };
 }
 
 /// Silent, capturing panic hook (message and location are kept per thread).
@@ -37,6 +39,9 @@ pub fn install_panic_hook() {
             "<non-string panic>".to_string()
         };
         let loc = info.location().map(|l| format!("{}:{}", l.file(), l.line())).unwrap_or_default();
+        if CATCH_DEPTH.with(|d| d.get()) == 0 {
+            eprintln!("HARNESS PANIC (outside any guarded call; infrastructure problem, not a verdict): {} at {}", msg, loc);
+        }
         LAST_PANIC.with(|p| *p.borrow_mut() = Some(PanicInfo { msg, loc }));
     }));
 }
@@ -44,7 +49,10 @@ pub fn install_panic_hook() {
 /// Runs f, converting an unwind into the captured panic information.
 pub fn catch<T>(f: impl FnOnce() -> T) -> Result<T, PanicInfo> {
     LAST_PANIC.with(|p| *p.borrow_mut() = None);
-    match catch_unwind(AssertUnwindSafe(f)) {
+    CATCH_DEPTH.with(|d| d.set(d.get() + 1));
+    let r = catch_unwind(AssertUnwindSafe(f));
+    CATCH_DEPTH.with(|d| d.set(d.get().saturating_sub(1)));
+    match r {
         Ok(v) => Ok(v),
         Err(_) => Err(LAST_PANIC.with(|p| p.borrow_mut().take()).unwrap_or_default()),
     }
